@@ -78,10 +78,24 @@ func TestVF_C10_ReproS10(t *testing.T) {
 	must(t, db.Close())
 	db = mustOpen(t, mem, open)
 	f.arm(1)
-	err := db.SaveRaftState([]pb.Update{
-		{ShardID: 1, ReplicaID: 1, State: pb.State{Term: 1, Commit: 6}, EntriesToSave: mkEntries(11, 11, 1)},
-	}, 2)
+	var err error
+	func() {
+		// a panic on the calling goroutine is an accepted way for a save to fail
+		defer func() {
+			if p := recover(); p != nil {
+				err = fmt.Errorf("panic: %v", p)
+			}
+		}()
+		err = db.SaveRaftState([]pb.Update{
+			{ShardID: 1, ReplicaID: 1, State: pb.State{Term: 1, Commit: 6}, EntriesToSave: mkEntries(11, 11, 1)},
+		}, 2)
+	}()
 	_, failedOp := f.disarm()
+	if err != nil {
+		// the failed save may have left the store unusable (fail-stop): abandon it
+		st.Case([]byte("s10"), true, "repro", "save-failed-as-required")
+		return
+	}
 	must(t, db.Close())
 	db = mustOpen(t, mem, pebbleOpener(true, nil))
 	defer db.Close()
